@@ -460,17 +460,33 @@ Proof.
 Qed.
 
 (* ---------- the whole statement ---------- *)
-Theorem model_meets_spec i : wf i -> agree i = true -> finding_F21 i = false -> spec_okb i (model i) = true.
+Lemma okind_eqb_eq a b : okind_eqb a b = true <-> a = b.
 Proof.
-  destruct i as [isb s ml np|name modelled hm|p]; intros W A NF.
-  - apply repr_meets_spec; assumption.
-  - simpl in W. subst modelled. simpl.
-    apply (list_eqb_spec okind_eqb). 2: reflexivity.
-    intros a b. destruct a, b; simpl; split; intro H; try discriminate; try reflexivity; try congruence.
-    + apply Nat.eqb_eq in H. congruence.
-    + injection H as ->. apply Nat.eqb_refl.
+  destruct a, b; simpl; split; intro H; try discriminate; try reflexivity; try congruence.
+  - apply Nat.eqb_eq in H. congruence.
+  - injection H as ->. apply Nat.eqb_refl.
+Qed.
+
+(* the two models of text_repr always agree *)
+Theorem agree_always i : agree i = true.
+Proof.
+  destruct i as [isb s ml np|name modelled hm|p]; simpl; try reflexivity.
+  rewrite lit_eq_tok. apply (list_eqb_spec N.eqb N.eqb_eq). reflexivity.
+Qed.
+
+Theorem model_meets_spec i : wf i -> finding_F21 i = false -> spec_okb i (model i) = true.
+Proof.
+  destruct i as [isb s ml np|name modelled hm|p]; intros W NF.
+  - apply repr_meets_spec; [assumption|apply agree_always].
+  - simpl in W. subst modelled. destruct hm; reflexivity.
   - apply test_meets_spec; assumption.
 Qed.
+
+(* text_repr's output evaluates back to the original text: the literal transliteration, every str / bytes,
+   every multiline setting *)
+Theorem lit_roundtrip isb nonprint s ml :
+  Forall (valid isb) s -> eval_lit (text_repr_lit isb nonprint s ml) = Some (isb, s).
+Proof. intro V. rewrite lit_eq_tok. apply tok_roundtrip. exact V. Qed.
 
 (* statement k of a function raises iff it is assertThat / assert_that and its matcher mismatches, or it is a
    raise; expectThat never raises; nothing of the function is executed after a raise *)
@@ -548,13 +564,6 @@ Proof.
   - rewrite !count_nat_notin; [reflexivity| |]; intro X; apply Hout; apply in_or_app; auto.
 Qed.
 
-Lemma okind_eqb_eq a b : okind_eqb a b = true <-> a = b.
-Proof.
-  destruct a, b; simpl; split; intro H; try discriminate; try reflexivity; try congruence.
-  - apply Nat.eqb_eq in H. congruence.
-  - injection H as ->. apply Nat.eqb_refl.
-Qed.
-
 Lemma outcome_eqb_eq a b : outcome_eqb a b = true <-> a = b.
 Proof. destruct a, b; simpl; split; intro H; try discriminate; try reflexivity. Qed.
 
@@ -569,13 +578,15 @@ Qed.
 
 Theorem spec_okb_sound i o : spec_okb i o = true -> Spec i o.
 Proof.
-  destruct i as [isb s ml np|name modelled hm|p], o as [out eb|kinds|raised after oc od|];
+  destruct i as [isb s ml np|name modelled hm|p], o as [out eb|kinds asserts|raised after oc od|];
     simpl; try discriminate.
   - unfold repr_okb. intro H. apply andb_true_iff in H as [-> H]. split; [reflexivity|].
     destruct (eval_lit out) as [[x l]|]; simpl in H; [|discriminate].
     apply andb_true_iff in H as [H1 H2]. apply (proj1 (bool_eqb_spec _ _)) in H1.
     apply (list_eqb_spec N.eqb N.eqb_eq) in H2. congruence.
-  - intros H M. subst modelled. simpl in H. apply (list_eqb_spec okind_eqb okind_eqb_eq). exact H.
+  - intros H M. subst modelled. simpl in H. apply andb_true_iff in H as [H1 H2]. split.
+    + apply (list_eqb_spec okind_eqb okind_eqb_eq). exact H1.
+    + apply (list_eqb_spec Bool.eqb bool_eqb_spec). exact H2.
   - unfold test_okb, details_okb. intro H.
     repeat (apply andb_true_iff in H as [H ?]).
     apply (list_eqb_spec _ (list_eqb_spec Bool.eqb bool_eqb_spec)) in H.
@@ -601,13 +612,15 @@ Qed.
 
 Theorem obs_eqb_spec a b : obs_eqb a b = true <-> alpha a = alpha b.
 Proof.
-  destruct a as [x e|x|r a oc d|], b as [y f|y|r' a' oc' d'|]; simpl; split; intro H;
+  destruct a as [x e|x xa|r a oc d|], b as [y f|y ya|r' a' oc' d'|]; simpl; split; intro H;
     try discriminate; try reflexivity.
   - apply andb_true_iff in H as [H1 H2]. apply (list_eqb_spec N.eqb N.eqb_eq) in H1.
     apply (proj1 (bool_eqb_spec _ _)) in H2. congruence.
   - injection H as -> ->. apply andb_true_iff. split; [apply (list_eqb_spec N.eqb N.eqb_eq)|apply bool_eqb_spec]; reflexivity.
-  - apply (list_eqb_spec okind_eqb okind_eqb_eq) in H. congruence.
-  - injection H as ->. apply (list_eqb_spec okind_eqb okind_eqb_eq). reflexivity.
+  - apply andb_true_iff in H as [H1 H2]. apply (list_eqb_spec okind_eqb okind_eqb_eq) in H1.
+    apply (list_eqb_spec Bool.eqb bool_eqb_spec) in H2. congruence.
+  - injection H as -> ->. apply andb_true_iff.
+    split; [apply (list_eqb_spec okind_eqb okind_eqb_eq)|apply (list_eqb_spec Bool.eqb bool_eqb_spec)]; reflexivity.
   - repeat (apply andb_true_iff in H as [H ?]).
     apply (list_eqb_spec _ (list_eqb_spec Bool.eqb bool_eqb_spec)) in H. apply (proj1 (bool_eqb_spec _ _)) in H2.
     apply outcome_eqb_eq in H1. apply (list_eqb_spec Nat.eqb Nat.eqb_eq) in H0. congruence.
